@@ -27,6 +27,13 @@ def flat(conds: List[Term]) -> List[Term]:
     return out
 
 
+def conj_set(ev: Event) -> Set[Term]:
+    out: Set[Term] = set()
+    for c in ev.pc:
+        out.update(conjuncts(c.term))
+    return out
+
+
 def check_receive(ck: Check) -> None:
     summ = ck.summ(MR + "receive", 0)
     sp = Spec(summ, ("self", "data"))
@@ -34,18 +41,22 @@ def check_receive(ck: Check) -> None:
     data = sp.term("data")
     buf = sp.term("self.buffer")
     blen = sp.term("len(self.buffer)")
+    ln = sp.term("self.len")
+    mrd = sp.term("self.magic_read")
     where = summ.fi.loc
     evs = [e for e in summ.events if not e.chain]
     if summ.unknown:
         ck.unknown("P1", "receive", "unanalysed constructs: %s" % summ.unknown[:3], where)
         return
+    stores = [e for e in evs if e.kind == "store"]
 
     # ---- P1: the chunk is only appended, first
     uses = [e for e in evs if mentions(e.term, data) or (e.value is not None and mentions(e.value, data)) or any(mentions(c.term, data) for c in e.pc)]
     tests_with_data = [t for t in summ.tests.values() if mentions(t, data)]
-    first = evs[0] if evs else None
+    first = stores[0] if stores else None
     construct = "receive: the chunk is used exactly once, appended to the buffer before anything else"
-    if first is not None and first.kind == "store" and first.term == buf and first.value == ("cat", (buf, data)) and uses == [first] and not tests_with_data:
+    if first is not None and first.term == buf and first.value == ("cat", (buf, data)) and uses == [first] and not tests_with_data \
+            and not first.pc and all(e.kind == "call" and e.seq > first.seq or e is first for e in evs if e.seq <= first.seq or e is first):
         ck.ok("P1", construct, "", first.loc)
     else:
         ck.violated("P1", construct, "a parser that inspects the chunk itself behaves differently when the same bytes arrive split differently: uses = %s"
@@ -59,7 +70,7 @@ def check_receive(ck: Check) -> None:
                 bad_src.add(x[1])
             elif x[0] == "a" and x[1] == selfv and x[2] not in STATE_ATTRS:
                 bad_src.add("self." + x[2])
-            elif x[0] == "call" and x[1][0] == "a":
+            elif x[0] == "call" and x[1][0] == "a" and x[1][2] not in ("from_bytes",):
                 bad_src.add("call ." + x[1][2] + "()")
     construct = "receive: every condition reads only (buffer, magic_read, len) and constants"
     if not bad_src and summ.tests:
@@ -67,49 +78,49 @@ def check_receive(ck: Check) -> None:
     else:
         ck.violated("P2", construct, "conditions also depend on %s" % sorted(bad_src), where)
 
-    # ---- stages
-    stage_conds: List[Term] = []
-    for e in evs:
-        if e.pc and e.pc[0].prov == "branch" and e.pc[0].term not in stage_conds:
-            stage_conds.append(e.pc[0].term)
-    stages: List[Tuple[Term, List[Event]]] = [(c, [e for e in evs if e.pc and e.pc[0].term == c]) for c in stage_conds]
-    ck.stats["stages"] = len(stages)
-    if len(stages) != 3:
-        ck.violated("P6", "receive: three stages magic -> length -> body", "found %d guarded stages" % len(stages), where)
+    # ---- stages = the buffer-consuming stores `buffer = buffer[k:]`, in program order
+    cons = [e for e in stores if e.term == buf and e is not first]
+    ck.stats["stages"] = len(cons)
+    if len(cons) != 3 or any(not (e.value[0] == "sl" and e.value[1] == buf and e.value[2] is not None and e.value[3] is None and e.value[4] is None)
+                             for e in cons):
+        ck.violated("P6", "receive: three stages magic -> length -> body, each advancing the buffer by `buffer = buffer[k:]`",
+                    "buffer stores: %s" % [e.describe()[:90] for e in cons], where)
         return
+    bounds = [first.seq if first is not None else -1] + [e.seq for e in cons]
+    windows: List[List[Event]] = []
+    for i in range(3):
+        hi = bounds[i + 1] if i < 2 else max(e.seq for e in evs)
+        windows.append([e for e in evs if bounds[i] < e.seq <= hi])
+    widths = [e.value[2] for e in cons]
 
-    # ---- P3 / P4 per stage
-    widths: List[Term] = []
-    for idx, (cond, ses) in enumerate(stages):
+    # ---- P3 per stage
+    for idx, (c_ev, win) in enumerate(zip(cons, windows)):
         name = ("magic", "length", "body")[idx]
-        cons = [e for e in ses if e.kind == "store" and e.term == buf]
-        construct = "receive/%s: consumes exactly the guarded prefix" % name
-        if len(cons) != 1 or not (cons[0].value[0] == "sl" and cons[0].value[1] == buf and cons[0].value[2] is not None
-                                  and cons[0].value[3] is None and cons[0].value[4] is None):
-            ck.violated("P3", construct, "the stage does not advance the buffer by one `buffer = buffer[k:]` (%s)" % [e.describe()[:80] for e in cons], where)
-            widths.append(C(None))
-            continue
-        k = cons[0].value[2]
-        widths.append(k)
+        k = widths[idx]
         guard = summ.norm.mk_cmp_s(">=", blen, k, None)
-        cj = flat([cond])
+        cj = conj_set(c_ev)
         problems = []
         if guard not in cj:
-            problems.append("no guard `len(buffer) >= %s` (guards: %s)" % (show(k), "; ".join(show(c) for c in cj)))
-        # all other buffer reads in the stage are the prefix buffer[:k]
-        for e in ses:
-            for t in [e.term] + ([e.value] if e.value is not None else []) + [c.term for c in e.pc[1:]]:
+            problems.append("no guard `len(buffer) >= %s` (conditions: %s)" % (show(k), "; ".join(sorted(show(c) for c in cj))))
+        for e in win:
+            if e is c_ev:
+                continue
+            # a read of the buffer only counts inside the stage (under the stage's guard)
+            if guard not in conj_set(e):
+                continue
+            for t in [e.term] + ([e.value] if e.value is not None else []):
                 for x in subterms(t):
-                    if x[0] == "sl" and x[1] == buf and e is not cons[0]:
-                        if not (x[2] is None and x[3] == k and x[4] is None):
-                            problems.append("reads %s, not the guarded prefix buffer[:%s]" % (show(x), show(k)))
+                    if x[0] == "sl" and x[1] == buf and not (x[2] is None and x[3] == k and x[4] is None):
+                        problems.append("reads %s, not the guarded prefix buffer[:%s]" % (show(x), show(k)))
                     if x[0] == "s" and x[1] == buf:
                         problems.append("indexes the buffer directly: %s" % show(x))
+        construct = "receive/%s: consumes exactly the guarded prefix" % name
         if problems:
-            ck.violated("P3", construct, "; ".join(sorted(set(problems))), cons[0].loc)
+            ck.violated("P3", construct, "; ".join(sorted(set(problems))), c_ev.loc)
         else:
-            ck.ok("P3", construct, "guard len(buffer) >= %s, reads buffer[:%s], advance buffer[%s:]" % (show(k), show(k), show(k)), cons[0].loc)
-    # P4: monotone guards
+            ck.ok("P3", construct, "guard len(buffer) >= %s, reads buffer[:%s], advance buffer[%s:]" % (show(k), show(k), show(k)), c_ev.loc)
+
+    # ---- P4: monotone guards
     bad4 = []
     for t in summ.tests.values():
         for c in flat([t]):
@@ -132,52 +143,48 @@ def check_receive(ck: Check) -> None:
 
     # ---- stage widths agree with what is parsed
     magic = ck.repo.const("skepticoin.networking.remote_peer.MAGIC")
-    s1, s2, s3 = stages
-    ok_w = (widths[0] == C(len(magic)) if isinstance(magic, bytes) else False)
-    unp = [e for e in s2[1] if e.kind == "call" and e.parts[0] == ("g", "ext:struct.unpack")]
-    fmt_ok = False
-    if len(unp) == 1 and unp[0].term[2][0][0] == "c":
-        try:
-            fmt_ok = widths[1] == C(struct.calcsize(unp[0].term[2][0][1])) and unp[0].term[2][0][1] in (b">I", b"!I", ">I", "!I")
-        except struct.error:
-            fmt_ok = False
-    ln = sp.term("self.len")
-    construct = "receive: stage widths = len(MAGIC), 4-byte big-endian length, self.len"
+    ok_w = isinstance(magic, bytes) and widths[0] == C(len(magic))
+    lenstore = [e for e in windows[1] if e.kind == "store" and e.term == ln]
+    pre4 = ("sl", buf, None, C(4), None)
+    be_forms = [("s", ("call", ("g", "ext:struct.unpack"), (C(b">I"), pre4), ()), C(0)), ("s", ("call", ("g", "ext:struct.unpack"), (C(b"!I"), pre4), ()), C(0)),
+                ("s", ("call", ("g", "ext:struct.unpack"), (C(">I"), pre4), ()), C(0)),
+                ("call", ("g", "builtin:int.from_bytes"), (pre4, C("big"), C(False)), ())]
+    fmt_ok = widths[1] == C(4) and len(lenstore) == 1 and lenstore[0].value in be_forms
+    construct = "receive: stage widths = len(MAGIC), 4-byte big-endian length parsed from buffer[:4], self.len"
     if ok_w and fmt_ok and widths[2] == ln:
         ck.ok("P3", construct, "", where)
     else:
-        ck.violated("P3", construct, "widths %s; magic %r; unpack %s" % ([show(w) for w in widths], magic, [show(e.term)[:60] for e in unp]), where)
+        ck.violated("P3", construct, "widths %s; magic %r; length parsed as %s" % ([show(w) for w in widths], magic, [show(e.value)[:70] for e in lenstore]), where)
 
     # ---- P7 refusal
     want_magic = summ.norm.mk_cmp_s("!=", ("sl", buf, None, widths[0], None), C(magic), None)
-    r1 = [e for e in s1[1] if e.kind == "raise" and want_magic in [c.term for c in e.pc]]
+    r1 = [e for e in windows[0] if e.kind == "raise" and want_magic in conj_set(e)]
     construct = "receive/magic: a prefix different from MAGIC is refused at that point"
-    if r1 and r1[0].seq < [e for e in s1[1] if e.kind == "store" and e.term == buf][0].seq:
+    if r1 and r1[0].seq < cons[0].seq:
         ck.ok("P7", construct, "", r1[0].loc)
     else:
         ck.violated("P7", construct, "no raise on `buffer[:4] != MAGIC` before the prefix is consumed", where)
-    lenstore = [e for e in s2[1] if e.kind == "store" and e.term == ln]
     over = summ.norm.mk_cmp_s(">", ln, C(MAX_FRAME), None)
-    r2 = [e for e in s2[1] if e.kind == "raise" and over in [c.term for c in e.pc]]
-    body_first = min(e.seq for e in s3[1])
+    r2 = [e for e in windows[1] if e.kind == "raise" and over in conj_set(e)]
     construct = "receive/length: a length above 32 MiB is refused as soon as it is read, before any wait for the body"
-    if len(lenstore) == 1 and unp and lenstore[0].value == ("s", unp[0].term, C(0)) and r2 and lenstore[0].seq < r2[0].seq < body_first:
+    if lenstore and r2 and lenstore[0].seq < r2[0].seq and r2[0].seq < min(e.seq for e in windows[2]):
         ck.ok("P7", construct, "", r2[0].loc)
     else:
         ck.violated("P7", construct, "size check missing, against another limit, or after the body stage", where)
 
     # ---- P5 / P6
-    body = s3[1]
+    body = windows[2] + [e for e in evs if e.seq > cons[2].seq]
+    body = sorted({id(e): e for e in body}.values(), key=lambda e: e.seq)
+    guard3 = summ.norm.mk_cmp_s(">=", blen, ln, None)
     disp = [e for e in body if e.kind == "call" and MR + "handle_message_data" in e.targets]
-    resets = {show(e.term): e for e in body if e.kind == "store"}
     rec = [e for e in body if e.kind == "call" and MR + "receive" in e.targets]
     construct = "receive/body: frame = buffer[:len] dispatched once; buffer advanced, both flags reset, then parsing is re-entered"
     problems = []
     if not (len(disp) == 1 and disp[0].term[2] == (("sl", buf, None, ln, None),)):
         problems.append("dispatch is %s" % [show(e.term)[:60] for e in disp])
-    mr_store = [e for e in body if e.kind == "store" and e.term == sp.term("self.magic_read")]
+    mr_store = [e for e in body if e.kind == "store" and e.term == mrd]
     ln_store = [e for e in body if e.kind == "store" and e.term == ln]
-    bf_store = [e for e in body if e.kind == "store" and e.term == buf]
+    bf_store = [cons[2]]
     if not (len(mr_store) == 1 and mr_store[0].value == C(False)):
         problems.append("magic_read is not reset")
     if not (len(ln_store) == 1 and ln_store[0].value == C(None)):
@@ -185,14 +192,14 @@ def check_receive(ck: Check) -> None:
     recursion = len(rec) == 1 and rec[0].term[2] == (C(b""),)
     looped = False
     if not recursion and not rec:
-        # equivalent idiom: all stages inside one `while True:` whose only exits lie outside the body stage
         import ast as _ast
         for n in _ast.walk(summ.fi.node):
             if isinstance(n, _ast.While) and isinstance(n.test, _ast.Constant) and n.test.value is True:
                 ids = {id(x) for x in _ast.walk(n)}
-                if all(any(e.stmt_id in ids for e in st_[1]) for st_ in stages):
-                    body_if = [x for x in _ast.walk(n) if isinstance(x, _ast.If) and any(e.stmt_id == id(x) for e in body)]
-                    exits_in_body = [y for bi in body_if for part in bi.body for y in _ast.walk(part) if isinstance(y, (_ast.Break, _ast.Return))]
+                if all(e.stmt_id in ids for e in cons):
+                    body_if = [x for x in _ast.walk(n) if isinstance(x, _ast.If) and any(id(y) == cons[2].stmt_id for y in _ast.walk(x))]
+                    inner_if = body_if[-1:] if body_if else []
+                    exits_in_body = [y for bi in inner_if for part in bi.body for y in _ast.walk(part) if isinstance(y, (_ast.Break, _ast.Return))]
                     has_exit = any(isinstance(y, (_ast.Break, _ast.Return)) for y in _ast.walk(n))
                     looped = not exits_in_body and has_exit
     if not (recursion or looped):
@@ -201,26 +208,26 @@ def check_receive(ck: Check) -> None:
         last = rec[0].seq if recursion else max(e.seq for e in body) + 1
         if not (bf_store[0].seq < ln_store[0].seq and max(mr_store[0].seq, ln_store[0].seq, bf_store[0].seq) < last and disp[0].seq < last):
             problems.append("resets / advance / re-entry are out of order")
-        if any(len(e.pc) != 1 for e in [disp[0], bf_store[0], ln_store[0], mr_store[0]] + (rec[:1] if recursion else [])):
+        base = conj_set(cons[2])
+        if any(conj_set(e) != base for e in [disp[0], ln_store[0], mr_store[0]] + (rec[:1] if recursion else [])):
             problems.append("some of them are conditional")
     if problems:
         ck.violated("P5", construct, "; ".join(problems), where)
     else:
         ck.ok("P5", construct, "", disp[0].loc)
     # P6: flags
-    c1, c2, c3 = flat([s1[0]]), flat([s2[0]]), flat([s3[0]])
+    c1, c2, c3 = conj_set(cons[0]), conj_set(cons[1]), conj_set(cons[2])
     nm = sp.term("not self.magic_read")
     len_none = sp.term("self.len is None")
     len_some = sp.term("self.len is not None")
-    set_true = [e for e in s1[1] if e.kind == "store" and e.term == sp.term("self.magic_read") and e.value == C(True)]
-    all_flag_stores = [e for e in evs if e.kind == "store" and e.term in (sp.term("self.magic_read"), ln)]
+    set_true = [e for e in windows[0] if e.kind == "store" and e.term == mrd and e.value == C(True)]
+    all_flag_stores = [e for e in evs if e.kind == "store" and e.term in (mrd, ln)]
     construct = "receive: stages in the order magic -> length -> body, flags progress (¬magic, None) -> (magic, None) -> (magic, n) -> reset of both"
-    if nm in c1 and len_none in c2 and len_some in c3 and len(set_true) == 1 and len(all_flag_stores) == 4 \
-            and max(e.seq for e in s1[1]) < min(e.seq for e in s2[1]) and max(e.seq for e in s2[1]) < min(e.seq for e in s3[1]):
+    if nm in c1 and len_none in c2 and len_some in c3 and len(set_true) == 1 and len(all_flag_stores) == 4:
         ck.ok("P6", construct, "flags are stored only in these three places", where)
     else:
         ck.violated("P6", construct, "stage conditions %s / %s / %s; flag stores %d" % (
-            [show(c) for c in c1], [show(c) for c in c2], [show(c) for c in c3], len(all_flag_stores)), where)
+            sorted(show(c) for c in c1), sorted(show(c) for c in c2), sorted(show(c) for c in c3), len(all_flag_stores)), where)
     # who else writes the parser state
     from ..engine.effects import typed_writes
     tw = [w for w in typed_writes(ck.walker, ck.repo) if w.owner == MR[:-1] and w.attr in STATE_ATTRS
